@@ -408,7 +408,12 @@ func (c *Cluster) SetDelay(leader, follower string, d time.Duration) {
 // every leader (handlers are single-shot on the leader).
 func (c *Cluster) registerHandlers(fn *CNode, gen int, partition int, query planner.QueryClusterFN) {
 	for _, l := range c.Leaders {
-		for k := 0; k < 2; k++ {
+		// (a real follower keeps ClusterQueryConcurrency handlers registered,
+		// 100 by default; a handler re-registers asynchronously after it has
+		// answered, and the leader takes handlers without waiting: with only
+		// two, a query with two concurrent IN-subqueries could find the pool
+		// momentarily empty, depending on goroutine scheduling)
+		for k := 0; k < 5; k++ {
 			go c.registerOne(l, fn, gen, partition, query)
 		}
 	}
